@@ -43,6 +43,7 @@ func runC05(c *Ctx) {
 	c05R5(c, p)
 	c05R6(c, p)
 	c05R7(c, p)
+	c05R8(c, p)
 }
 
 // ---------- path enumeration ----------
@@ -869,6 +870,13 @@ func c05R5(c *Ctx, p *Prog) {
 					c.Check(fl.width >= w, rule, name+"#width", fd.Pos(), "field %s (%d bits) holds every %s (%d bits needed)", fl.name, fl.width, types.TypeString(vt, nil), w)
 					tn := types.Unalias(vt).(*types.Named).Obj().Name() + ":" + fd.Name.Name
 					roleMask[tn] = append(roleMask[tn], fl.name)
+					// an accessor is the plain extraction of its field: a decoder that folds several bit patterns into one
+					// value hides stray bits from IsPseudoLegal, which reads the word only through the accessors
+					if sig.Recv() != nil {
+						if sf := p.Func(name); sf != nil && sf.Blocks != nil {
+							c.Check(len(sf.Blocks) == 1, rule, name+"#plain-extraction", fd.Pos(), "the accessor returns its field unchanged ((m & mask) >> shift, no remapping of values): every bit pattern of the field is visible to the acceptor")
+						}
+					}
 				}
 			}
 		}
@@ -931,6 +939,12 @@ func c05R6(c *Ctx, p *Prog) {
 
 func init() {
 	addMutants(
+		Mutant{Name: "C05.R8-en-passant-legality-prefilter", Prop: "C05", File: "movegen/movegen.go", Quick: true,
+			Old: "\t\tms.Alloc(move.From(from) | move.To(b.EnPassant))\n", New: "\t\tif b.IsAttacked(b.STM.Flip(), g.occ&^(pawns&-pawns), g.self&b.Pieces[King]) {\n\t\t\tcontinue\n\t\t}\n\t\tms.Alloc(move.From(from) | move.To(b.EnPassant))\n",
+			Expect: "C05.R8/movegen.(generator).enPassant#emit"},
+		Mutant{Name: "C05.R5-promo-decoder-hides-stray-bits", Prop: "C05", File: "move/move.go",
+			Old: "func (s Move) Promo() Piece { return Piece((s & promoMsk) >> promoShift) }", New: "func (s Move) Promo() Piece {\n\tp := Piece((s & promoMsk) >> promoShift)\n\tif p < Knight || p > Queen {\n\t\treturn NoPiece\n\t}\n\treturn p\n}",
+			Expect: "C05.R5/move.(Move).Promo#plain-extraction"},
 		// the two hunks of the fix for F-1, reverted (kept as mutants: the violation must be reported again if it returns)
 		Mutant{Name: "C05.R1-F1-reverted-promo-off-seventh", Prop: "C05", File: "board/board.go", Quick: true,
 			Old: "\t\t} else if m.Promo() != NoPiece {\n\t\t\t// promotion piece on a pawn move that does not promote\n\t\t\treturn false\n\t\t}\n", New: "\t\t}\n",
@@ -1281,4 +1295,119 @@ func init() {
 			Old: "tSqrs := attacks.KnightMoves(from) & ^g.self & toMsk", New: "tSqrs := attacks.KnightMoves(from) & toMsk",
 			Expect: "C05.R7/movegen.(generator).knightMoves#targets"},
 	)
+}
+
+// c05R8: the generator decides WHICH moves exist by set algebra on bitboards (R7 for pieces, R4 for
+// pawns, R2 for castling); once a source/target pair is in those sets the move is emitted. A
+// per-move condition in front of ms.Alloc — a legality pre-filter, a "never useful" shortcut — makes
+// the generator emit less than IsPseudoLegal accepts, so an encoding the acceptor lets through (a
+// table move) is not a generated move and the picker's duplicate suppression no longer matches.
+// Allowed in front of an emission: the loop tests of the set loops (bitboard != 0), counter loops over
+// promotion pieces, tests of the side to move and of the recorded en-passant square.
+func c05R8(c *Ctx, p *Prog) {
+	const rule = "C05.R8"
+	// castling emissions are conditional by nature (rights, empty path, safe path): R2 owns them
+	castle := map[*ssa.Function]bool{}
+	for _, fn := range p.OwnFuncs() {
+		if relPkg(fnPkgPath(fn)) == "movegen" && len(callsIn(fn, "chess.Castle")) > 0 {
+			castle[fn] = true
+		}
+	}
+	n := 0
+	for _, fn := range p.OwnFuncs() {
+		if relPkg(fnPkgPath(fn)) != "movegen" || castle[fn] {
+			continue
+		}
+		ord := 0
+		for _, ci := range callsIn(fn, "move.(*Store).Alloc") {
+			ord++
+			n++
+			key := fmt.Sprintf("%s#emit@%d", fnName(fn), ord)
+			bad := ""
+			for _, ce := range controllingConds(ci.Block()) {
+				if c05LoopOrStateCond(ce.Cond) {
+					continue
+				}
+				bad = p.Rel(ce.Cond.Pos())
+				if bad == "" {
+					bad = ce.Cond.String()
+				}
+			}
+			// `if filter { continue }` in front of the emission: some iteration of the innermost loop gets round it
+			if bad == "" {
+				blk := ci.Block()
+				var hdr *ssa.BasicBlock
+				for d := blk; d != nil; d = d.Idom() {
+					isHdr := false
+					for _, pr := range d.Preds {
+						if d.Dominates(pr) {
+							isHdr = true
+						}
+					}
+					if isHdr {
+						hdr = d
+						break
+					}
+				}
+				if hdr != nil {
+					for _, succ := range hdr.Succs {
+						if !(succ == blk || succ.Dominates(blk)) || len(succ.Instrs) == 0 {
+							continue
+						}
+						if r, _ := reachAvoidingTo(succ.Instrs[0], hdr.Instrs[0], func(x ssa.Instruction) bool { return x == ssa.Instruction(ci.(ssa.Instruction)) }); r {
+							bad = "an iteration of the set loop can reach the next one without emitting (continue/skip in front of the emission)"
+						}
+					}
+				}
+			}
+			if bad == "" {
+				c.Ok(rule, key, ci.Pos(), "every source/target pair of the generator's sets is emitted (only loop tests, side-to-move and en-passant-square tests in front of the emission)")
+			} else {
+				c.Fail(rule, key, ci.Pos(), "the emission is guarded by a per-move condition (%s) that is neither a loop test nor a test of the side to move / en-passant square: the generator emits fewer moves than IsPseudoLegal accepts", bad)
+			}
+		}
+	}
+	c.Floor(rule, n, 8, "emission sites in the generator")
+}
+
+func c05LoopOrStateCond(v ssa.Value) bool {
+	isBB := func(t types.Type) bool { return isBitBoardType(t) }
+	switch x := v.(type) {
+	case *ssa.BinOp:
+		_, cx := stripConv(x.X).(*ssa.Const)
+		_, cy := stripConv(x.Y).(*ssa.Const)
+		other := x.X
+		if cx {
+			other = x.Y
+		}
+		if cx || cy {
+			o := stripConv(other)
+			// loop variable (bitboard set being stripped, counter being stepped)
+			if ph, ok := o.(*ssa.Phi); ok {
+				_ = ph
+				return true
+			}
+			if bo, ok := o.(*ssa.BinOp); ok && (bo.Op == token.ADD || bo.Op == token.SUB) {
+				if _, ok := stripConv(bo.X).(*ssa.Phi); ok {
+					return true // rotated loop test on the stepped counter
+				}
+			}
+			// state tests: side to move, recorded en-passant square
+			if isFieldLoad(o, "Board.STM") || isFieldLoad(o, "Board.EnPassant") {
+				return true
+			}
+			// a set computed before the loop compared with 0 (e.g. `if pushable == 0`) is set algebra, not per-move:
+			// accept when the value does not depend on a loop variable
+			if isBB(o.Type()) {
+				dep := false
+				for w := range backSlice(o, sliceOpts{ThroughCalls: true}) {
+					if _, ok := w.(*ssa.Phi); ok {
+						dep = true
+					}
+				}
+				return !dep
+			}
+		}
+	}
+	return false
 }
